@@ -199,7 +199,8 @@ async fn run_script(steps: Vec<String>) -> (String, Option<String>) {
                 _ => {}
             } },
             "H" => { main = None; }
-            "T" => { if let Some(h) = &main { let ids: Vec<i32> = if f[2] == "~" { vec![] } else { f[2].split(',').map(|x| x.parse().unwrap()).collect() }; h.verif_set_id_table(f[1].parse().unwrap(), &ids); table_reset = true; } }
+            // T:<last>:<ids>  positions the id table; ids "~" = empty, "=" = keep the ids in use now (a faithful picture of the counter having come round)
+            "T" => { if let Some(h) = &main { let ids: Vec<i32> = if f[2] == "~" { vec![] } else if f[2] == "=" { table.lock().unwrap().1.iter().copied().collect() } else { f[2].split(',').map(|x| x.parse().unwrap()).collect() }; h.verif_set_id_table(f[1].parse().unwrap(), &ids); table_reset = true; } }
             _ => {}
         }
         settle().await;
